@@ -142,6 +142,37 @@ func init() {
 					g.emit("bwfirstdiff %d %s %s %d %d", n, showBytes(a), showBytes(b), from, end)
 				}
 			}
+			// long strings with several differences, windows starting between them (block-wise fast paths)
+			for rep := 0; rep < g.n(12, 80); rep++ {
+				l := []int{130, 200, 300, 520, 1100}[g.intn(5)]
+				a := g.bytes(l, 3)
+				b := append([]byte(nil), a...)
+				nd := 1 + g.intn(3)
+				for k := 0; k < nd; k++ {
+					b[g.intn(l)] ^= 1 << uint(g.intn(8))
+				}
+				per := 8 / n
+				for k := 0; k < 4; k++ {
+					from := g.intn(l * per)
+					end := []int{-1, l * per, from + g.intn(l*per-from+1)}[g.intn(3)]
+					g.emit("bwfirstdiff %d %s %s %d %d", n, showBytes(a), showBytes(b), from, end)
+				}
+			}
+			// ToStr: output lengths on and around multiples of 1024 bytes, incomplete last byte
+			for _, nb := range []int{1023, 1024, 1025, 2048} {
+				per := 8 / n
+				for _, d := range []int{-1, 0, 1, -(per - 1)} {
+					cnt := nb*per + d
+					if cnt <= 0 {
+						continue
+					}
+					ws := make([]uint64, cnt)
+					for i := range ws {
+						ws[i] = uint64(g.intn(1 << uint(n)))
+					}
+					g.emit("bwtostr %d %s", n, showU64s(ws))
+				}
+			}
 			for _, l := range []int{255, 256, 257, 1000} {
 				a := g.bytes(l, 3)
 				b := append([]byte(nil), a...)
@@ -243,6 +274,38 @@ func init() {
 				}
 			}
 		}
+		// payload byte lengths swept across 64 / 128 / 256: keys equal to the payload, longer, differing only in
+		// bits that the range masks away, differing in the last kept bit
+		for pl := 58; pl <= 262; pl++ {
+			if pl > 140 && pl < 250 {
+				continue
+			}
+			if !g.thorough() && pl%3 != 0 && !(pl >= 63 && pl <= 73) && !(pl >= 127 && pl <= 137) && !(pl >= 255 && pl <= 259) {
+				continue
+			}
+			s := g.bytes(pl, 3)
+			for _, sub := range []int{0, 1, 5, 7} {
+				to := 8*pl - sub
+				if to <= 0 {
+					continue
+				}
+				hs := showBytes(s)
+				eq := append([]byte(nil), s...)
+				longer := append(append([]byte(nil), s...), g.bytes(1+g.intn(3), 3)...)
+				masked := append([]byte(nil), s...)
+				if sub > 0 {
+					masked[pl-1] ^= 1 << uint(g.intn(sub)) // a bit beyond `to`
+				}
+				lastbit := append([]byte(nil), s...)
+				lastbit[pl-1] ^= 1 << uint(sub) // the last kept bit
+				shorter := append([]byte(nil), s[:pl-1]...)
+				for _, a := range [][]byte{eq, longer, masked, lastbit, shorter} {
+					g.emit("bscmpupto %s %s 0 %d", showBytes(a), hs, to)
+				}
+				g.emit("bscmp %s 0 %d %s 0 %d", hs, to, showBytes(longer), 8*len(longer))
+				g.emit("bscmp %s 0 %d %s 0 %d", showBytes(lastbit), to, hs, to)
+			}
+		}
 		for _, l := range []int{255, 256, 257, 1000} {
 			s := g.bytes(l, 3)
 			s2 := append([]byte(nil), s...)
@@ -321,6 +384,38 @@ func init() {
 			g.emit("fdb %s", ks)
 			g.emit("countprefixes %s 0 %d 40", ks, len(uniq))
 			g.emit("countprefixes %s %d %d 9", ks, len(uniq)/3, len(uniq)-1)
+		}
+		// shared prefixes of every byte length 0..300 and around 512 (chunked / block-wise comparison loops):
+		// the pair differs in one bit right after the shared prefix
+		for base := 0; base <= 540; base += 20 {
+			if base > 300 && base < 500 {
+				continue
+			}
+			keys := [][]byte{}
+			for L := base; L < base+20; L++ {
+				pfx := bytes.Repeat([]byte{byte(0x40 + L%50)}, L)
+				bit := byte(0x80 >> uint(g.intn(8)))
+				a := append(append([]byte(nil), pfx...), g.bytes(1, 3)[0]&^bit)
+				b := append(append([]byte(nil), pfx...), a[L]|bit)
+				a = append(a, g.bytes(g.intn(12), 3)...)
+				b = append(b, g.bytes(g.intn(12), 3)...)
+				keys = append(keys, a, b)
+			}
+			g.emit("fdb %s", showBytesList(keys))
+		}
+		// one bit position that is the first difference of 65536 adjacent pairs: all 17-bit values as keys
+		if g.thorough() || true {
+			var sb strings.Builder
+			for i := 0; i < 1<<17; i++ {
+				if i > 0 {
+					sb.WriteByte(',')
+				}
+				v := uint32(i) << 7
+				fmt.Fprintf(&sb, "x%02x%02x%02x", byte(v>>16), byte(v>>8), byte(v))
+			}
+			ks := sb.String()
+			g.emit("countprefixes %s 0 131072 20", ks)
+			g.emit("countprefixes %s 1 131071 18", ks)
 		}
 		g.emit("fdb x61,x6100")
 		g.emit("fdb x6162,x6163,x62")
@@ -430,6 +525,29 @@ func init() {
 			} else {
 				g.emit("sw %d %d %s", off, n, strings.Join(calls, ";"))
 			}
+		}
+		// sections whose end lies within a few bytes of the largest int64 (limit-minus-offset sums near 2^63)
+		const maxI64 = int64(1<<63 - 1)
+		for rep := 0; rep < g.n(60, 600); rep++ {
+			n := int64(1 + g.intn(100))
+			off := maxI64 - n - int64(g.intn(3))
+			calls := []string{}
+			for c := 0; c < 1+g.intn(5); c++ {
+				plen := []int{1, 5, 16, int(n), int(n) + 3}[g.intn(5)]
+				o := []int64{0, n - 1, n - 6, n, n / 2, n - int64(plen), n - int64(plen) + 1}[g.intn(7)]
+				switch g.intn(3) {
+				case 0:
+					calls = append(calls, fmt.Sprintf("a:%d:%d:%d:0", plen, o, plen+100))
+				case 1:
+					calls = append(calls, fmt.Sprintf("k:%d:0", o), fmt.Sprintf("w:%d:%d:0", plen, plen+100))
+				default:
+					calls = append(calls, fmt.Sprintf("k:%d:2", -int64(g.intn(int(n)+1))), fmt.Sprintf("w:%d:%d:0", plen, plen+100))
+				}
+			}
+			g.emit("sw %d %d %s", off, n, strings.Join(calls, ";"))
+			// AtToWriter: the section runs to the largest int64
+			rel := maxI64 - off
+			g.emit("atw %d a:16:%d:116:0;a:1:%d:101:0;a:5:%d:105:0;k:%d:0;w:9:109:0;w:1:101:0", off, rel-6, rel-1, rel, rel-4)
 		}
 		g.emit("sw 0 0 w:0:0:0;w:1:1:0;a:0:0:0:0;k:0:0;k:0:2;k:1:2;w:1:1:0;z")
 		g.emit("sw 5 3 w:3:3:0;w:1:1:0;k:-1:1;w:2:2:0;k:0:3;k:-1:0;a:2:2:2:0")
